@@ -34,7 +34,7 @@ structure Hist where
   truncDirty  : Bool := false   -- a truncate below the size happened while the buffer held dirty lists
   truncChunks : Bool := false   -- a truncate below the size happened while the entry had chunks
   readSeen    : Bool := false   -- FileHandle.Read has been called on this handle (it caches the chunk view and the reader)
-  savedAfterRead : Bool := false -- the entry's chunk list changed after such a Read
+  savedAfterRead : Bool := false -- the entry's chunk list or its FileSize attribute (truncate) changed after such a Read
 deriving Repr
 
 def truncClass (h : Hist) (pfx : String) : String :=
@@ -47,7 +47,7 @@ def truncClass (h : Hist) (pfx : String) : String :=
 def readJudge (h : Hist) (f : File) (off len : Nat) (n : Nat) (out : List Nat) : Option String :=
   let want := pread f off len
   if n = want.length ∧ out = want then none
-  else some (truncClass h (if h.savedAfterRead then "FileHandle.Read/chunk-view-stale-after-chunks-added" else "Read/wrong-bytes"))
+  else some (truncClass h (if h.savedAfterRead then "FileHandle.Read/cached-chunk-view-stale" else "Read/wrong-bytes"))
 
 /-- ReadDirtyDataAt: every byte it writes into the buffer is the current byte of the file -/
 def dirtyReadJudge (h : Hist) (f : File) (off : Nat) (bytes : List Nat) (mask : List Nat) : Option String :=
